@@ -573,10 +573,14 @@ class MemorizedFunc(Logger):
         # 3-tuple property containing: the function source code, source file,
         # and first line of the code inside the source file
         if hasattr(self.func, "__code__"):
+            # Be robust to dynamic reassignments of self.func.__code__. A
+            # reference to the code object itself is kept rather than its id:
+            # the id of a collected code object can be reused by a new one.
+            func_code = self.func.__code__
             if self._func_code_id is None:
-                self._func_code_id = id(self.func.__code__)
-            elif id(self.func.__code__) != self._func_code_id:
-                # Be robust to dynamic reassignments of self.func.__code__
+                self._func_code_id = func_code
+            elif self._func_code_id is not func_code:
+                self._func_code_id = func_code
                 self._func_code_info = None
 
         if self._func_code_info is None:
